@@ -666,7 +666,7 @@ theorem extAlong_min_select (bm : BMode) (H : Heap ℝ) (x y n : Nat) (g m : ℝ
     `M = Tensor.max x` (a left fold from the instance's `negInf`, which is `0` over ℝ — see `C05x.max_real_partial`:
     `M` bounds every element, and IS the maximum of the data as soon as one element is `≥ 0`); the closure then
     returns `g` exactly at the positions with `x_p ≥ M − 1e-240` and `0` elsewhere. -/
-theorem maxAlong_vjp_real (bm : BMode) (H : Heap ℝ) (x y n : Nat) (g : ℝ) (wx : (H.val x).WF)
+theorem maxAlong_vjp_real_partial (bm : BMode) (H : Heap ℝ) (x y n : Nat) (g : ℝ) (wx : (H.val x).WF)
     (hdx : (H.val x).dims = [n]) (hy : vAlong .max (H.val x) 0 = .ok (H.val y)) :
     H.val y = ⟨[], [(H.val x).max]⟩ ∧
     evalRule bm H ⟨[], [g]⟩ (.extAlongX x y 0)
@@ -681,7 +681,7 @@ theorem maxAlong_vjp_real (bm : BMode) (H : Heap ℝ) (x y n : Nat) (g : ℝ) (w
   exact ⟨hyv, (extAlong_max_select bm H x y n g _ wx hdx hyv h2).1, h2, h4⟩
 
 /-- **MinAlong(0) of a vector, forward and backward together** (the ℝ instance's `posInf` is `0`: `C05x.min_real_partial`) -/
-theorem minAlong_vjp_real (bm : BMode) (H : Heap ℝ) (x y n : Nat) (g : ℝ) (wx : (H.val x).WF)
+theorem minAlong_vjp_real_partial (bm : BMode) (H : Heap ℝ) (x y n : Nat) (g : ℝ) (wx : (H.val x).WF)
     (hdx : (H.val x).dims = [n]) (hy : vAlong .min (H.val x) 0 = .ok (H.val y)) :
     H.val y = ⟨[], [(H.val x).min]⟩ ∧
     evalRule bm H ⟨[], [g]⟩ (.extAlongX x y 0)
@@ -694,6 +694,368 @@ theorem minAlong_vjp_real (bm : BMode) (H : Heap ℝ) (x y n : Nat) (g : ℝ) (w
     rw [← hy]; rfl
   obtain ⟨_, h2, _, h4, _⟩ := C05x.min_real_partial (H.val x)
   exact ⟨hyv, (extAlong_min_select bm H x y n g _ wx hdx hyv h2).1, h2, h4⟩
+
+/-- **COUNTEREXAMPLE to "the MaxAlong rule, fed with the forward result, hands `g` to the positions of the maximum" on the
+    Model's ℝ instance**: for the all-negative vector `[-1, -2]` the forward `MaxAlong(0)` returns `0` (the instance has
+    `negInf := 0`, see `C05x.max_real_counterexample`), no element is within `1e-240` of `0`, and the closure returns
+    `[0, 0]` instead of `[g, 0]`. An artefact of the ℝ instance, not of the Go code (whose fold identity is `math.Inf(-1)`):
+    `extAlong_max_select` / `maxAlong_vjp_deriv` state the rule for `y` holding a true upper bound / the true maximum, and
+    `maxAlong_vjp_real_partial` states what holds on the ℝ instance itself. -/
+theorem maxAlong_real_counterexample (bm : BMode) :
+    vAlong .max (⟨[2], [-1, -2]⟩ : Tensor ℝ) 0 = .ok ⟨[], [0]⟩ ∧
+    evalRule bm (#[⟨⟨[2], [-1, -2]⟩, {}⟩, ⟨⟨[], [0]⟩, {}⟩] : Heap ℝ) ⟨[], [1]⟩ (.extAlongX 0 1 0) = .ok ⟨[2], [0, 0]⟩ := by
+  have w : (⟨[2], [-1, -2]⟩ : Tensor ℝ).WF := ⟨rfl, by intro d hd; simp at hd; omega⟩
+  constructor
+  · rw [along_rank1_fwd .max _ 2 w rfl]
+    simp only [Reducer.fn]
+    rw [C05x.max_real_counterexample]
+  · have h := rule_extAlong_rank1_real bm (#[⟨⟨[2], [-1, -2]⟩, {}⟩, ⟨⟨[], [0]⟩, {}⟩] : Heap ℝ) 0 1 2 1 0 w rfl rfl
+    rw [h]
+    have hθ : θ < 1 := by unfold θ; norm_num
+    have e1 : ¬ |(-1 : ℝ) - 0| ≤ θ := by norm_num; linarith
+    have e2 : ¬ |(-2 : ℝ) - 0| ≤ θ := by norm_num; linarith
+    show Out.ok (⟨[2], [1 * (if |(-1 : ℝ) - 0| ≤ θ then 1 else 0), 1 * (if |(-2 : ℝ) - 0| ≤ θ then 1 else 0)]⟩ : Tensor ℝ) = _
+    rw [if_neg e1, if_neg e2]
+    norm_num
+
+/-! ### where the maximiser is unique: the rule against the derivative of the Model's `Max` -/
+
+theorem wf_ofFn {n : ℕ} (hn : 0 < n) (x : Fin n → ℝ) : (⟨[n], List.ofFn x⟩ : Tensor ℝ).WF :=
+  ⟨by simp [prod], by intro d hd; simp at hd; omega⟩
+
+/-- the Model's `Max` over ℝ (a left fold from the instance's `negInf = 0`) is characterised by: non-negative, an upper
+    bound of the data, and equal to `0` or to an element -/
+theorem max_eq_of (t : Tensor ℝ) (m : ℝ) (h0 : 0 ≤ m) (hub : ∀ v ∈ t.data, v ≤ m) (hmem : m = 0 ∨ m ∈ t.data) :
+    t.max = m := by
+  obtain ⟨g0, g1, g2, _, _⟩ := C05x.max_real_partial t
+  apply le_antisymm
+  · rcases g2 with h | h
+    · rw [h]; exact h0
+    · exact hub _ h
+  · rcases hmem with h | h
+    · rw [h]; exact g0
+    · exact g1 _ h
+
+/-- `Max` of a vector as a function of its (positive, strictly largest) coordinate `i` is the identity near `x_i` -/
+theorem d_max_at_argmax {n : ℕ} (x : Fin n → ℝ) (i : Fin n) (hpos : 0 < x i) (hstrict : ∀ k, k ≠ i → x k < x i) :
+    HasDerivAt (fun t => (⟨[n], List.ofFn (Function.update x i t)⟩ : Tensor ℝ).max) 1 (x i) := by
+  obtain ⟨c0, c1, c2, _, _⟩ := C05x.max_real_partial (⟨[n], List.ofFn (Function.update x i 0)⟩ : Tensor ℝ)
+  generalize hc : (⟨[n], List.ofFn (Function.update x i 0)⟩ : Tensor ℝ).max = c at c0 c1 c2
+  have hci : c < x i := by
+    rcases c2 with h | h
+    · rw [h]; exact hpos
+    · obtain ⟨k, hk⟩ := List.mem_ofFn.mp h
+      by_cases hki : k = i
+      · rw [hki, Function.update_self] at hk; rw [← hk]; exact hpos
+      · rw [Function.update_of_ne hki] at hk; rw [← hk]; exact hstrict k hki
+  have hev : (fun t => (⟨[n], List.ofFn (Function.update x i t)⟩ : Tensor ℝ).max) =ᶠ[nhds (x i)] fun t => t := by
+    filter_upwards [eventually_gt_nhds hci] with t ht
+    apply max_eq_of
+    · linarith
+    · intro v hv
+      obtain ⟨k, hk⟩ := List.mem_ofFn.mp hv
+      by_cases hki : k = i
+      · rw [hki, Function.update_self] at hk; rw [← hk]
+      · rw [Function.update_of_ne hki] at hk
+        have : v ∈ (⟨[n], List.ofFn (Function.update x i 0)⟩ : Tensor ℝ).data :=
+          List.mem_ofFn.mpr ⟨k, by rw [Function.update_of_ne hki]; exact hk⟩
+        linarith [c1 v this]
+    · right
+      exact List.mem_ofFn.mpr ⟨i, by rw [Function.update_self]⟩
+  exact (hasDerivAt_id (x i)).congr_of_eventuallyEq hev
+
+/-- … and as a function of a coordinate `j` strictly below a non-negative largest coordinate `i` it is constant near `x_j` -/
+theorem d_max_off_argmax {n : ℕ} (x : Fin n → ℝ) (i j : Fin n) (hpos : 0 ≤ x i) (hub : ∀ k, x k ≤ x i) (hj : x j < x i) :
+    HasDerivAt (fun t => (⟨[n], List.ofFn (Function.update x j t)⟩ : Tensor ℝ).max) 0 (x j) := by
+  have hji : j ≠ i := by intro h; rw [h] at hj; exact lt_irrefl _ hj
+  have hev : (fun t => (⟨[n], List.ofFn (Function.update x j t)⟩ : Tensor ℝ).max) =ᶠ[nhds (x j)] fun _ => x i := by
+    filter_upwards [eventually_lt_nhds hj] with t ht
+    apply max_eq_of _ _ hpos
+    · intro v hv
+      obtain ⟨k, hk⟩ := List.mem_ofFn.mp hv
+      by_cases hkj : k = j
+      · rw [hkj, Function.update_self] at hk; rw [← hk]; exact ht.le
+      · rw [Function.update_of_ne hkj] at hk; rw [← hk]; exact hub k
+    · right
+      exact List.mem_ofFn.mpr ⟨i, by rw [Function.update_of_ne (Ne.symm hji)]⟩
+  exact (hasDerivAt_const (x j) (x i)).congr_of_eventuallyEq hev
+
+/-- **MaxAlong(0) of a vector with a unique maximiser, over ℝ: the rule is the gradient of the Model's `Max`, times `g`.**
+    If coordinate `i` exceeds every other coordinate by more than the equality threshold `1e-240` (and is positive — the
+    ℝ instance folds from `0` instead of `−∞`), the closure returns `g` at `i` and `0` elsewhere, and each entry is the partial
+    derivative with respect to that coordinate of `g · Max(x)`. (With ties — two coordinates within `1e-240` of the maximum —
+    `Max` is not differentiable and the closure hands the full `g` to each of them: `extAlong_max_select`.) -/
+theorem maxAlong_vjp_deriv_real_partial (bm : BMode) (H : Heap ℝ) (xn yn n : Nat) (x : Fin n → ℝ) (g : ℝ) (i : Fin n)
+    (hx : H.val xn = ⟨[n], List.ofFn x⟩) (hy : vAlong .max (H.val xn) 0 = .ok (H.val yn))
+    (hpos : 0 < x i) (hm : ∀ k, k ≠ i → x k < x i - θ) :
+    evalRule bm H ⟨[], [g]⟩ (.extAlongX xn yn 0) = .ok ⟨[n], List.ofFn (fun p => if p = i then g else 0)⟩ ∧
+    ∀ p, HasDerivAt (fun t => g * (⟨[n], List.ofFn (Function.update x p t)⟩ : Tensor ℝ).max)
+      (if p = i then g else 0) (x p) := by
+  have hn : 0 < n := Nat.lt_of_le_of_lt (Nat.zero_le _) i.isLt
+  have wx : (H.val xn).WF := by rw [hx]; exact wf_ofFn hn x
+  have hlt : ∀ k, k ≠ i → x k < x i := fun k hk => by linarith [hm k hk, θ_pos]
+  have hub : ∀ k, x k ≤ x i := by
+    intro k
+    by_cases hk : k = i
+    · rw [hk]
+    · exact (hlt k hk).le
+  have hM : (H.val xn).max = x i := by
+    rw [hx]
+    apply max_eq_of _ _ hpos.le
+    · intro v hv
+      obtain ⟨k, hk⟩ := List.mem_ofFn.mp hv
+      rw [← hk]; exact hub k
+    · right; exact List.mem_ofFn.mpr ⟨i, rfl⟩
+  refine ⟨?_, ?_⟩
+  · rw [(maxAlong_vjp_real_partial bm H xn yn n g wx (by rw [hx]) hy).2.1, hM, hx]
+    congr 2
+    rw [List.map_ofFn]
+    congr 1
+    funext p
+    simp only [Function.comp_apply]
+    by_cases hp : p = i
+    · rw [if_pos hp, hp, if_pos (by linarith [θ_pos])]
+    · rw [if_neg hp, if_neg (by linarith [hm p hp])]
+  · intro p
+    by_cases hp : p = i
+    · subst hp
+      rw [if_pos rfl]
+      have := (d_max_at_argmax x p hpos hlt).const_mul g
+      rwa [mul_one] at this
+    · rw [if_neg hp]
+      have := (d_max_off_argmax x i p hpos.le hub (hlt p hp)).const_mul g
+      rwa [mul_zero] at this
+
+/-! ### artefact-free form: `y` holds the true maximum `maxF x = sup_k x_k` (what `math.Inf(-1)` as fold identity gives) -/
+
+/-- the maximum of a non-empty vector -/
+noncomputable def maxF {n : ℕ} (hn : 0 < n) (x : Fin n → ℝ) : ℝ :=
+  Finset.univ.sup' ⟨⟨0, hn⟩, Finset.mem_univ _⟩ x
+
+theorem maxF_eq_of {n : ℕ} (hn : 0 < n) (x : Fin n → ℝ) (i : Fin n) (hub : ∀ k, x k ≤ x i) : maxF hn x = x i := by
+  unfold maxF
+  apply le_antisymm
+  · exact Finset.sup'_le _ _ (fun k _ => hub k)
+  · exact Finset.le_sup' x (Finset.mem_univ i)
+
+/-- **MaxAlong(0) of a vector with a unique maximiser: the rule is the gradient of the maximum, times `g`** — `y` holding
+    the true maximum `sup_k x_k`, no sign condition. If `x_i` exceeds every other coordinate by more than `1e-240`, the
+    closure returns `g·e_i`, and its `p`-th entry is the partial derivative of `g · max(x)` with respect to `x_p`. -/
+theorem maxAlong_vjp_deriv (bm : BMode) (H : Heap ℝ) (xn yn n : Nat) (hn : 0 < n) (x : Fin n → ℝ) (g : ℝ) (i : Fin n)
+    (hx : H.val xn = ⟨[n], List.ofFn x⟩) (hy : H.val yn = ⟨[], [maxF hn x]⟩) (hm : ∀ k, k ≠ i → x k < x i - θ) :
+    evalRule bm H ⟨[], [g]⟩ (.extAlongX xn yn 0) = .ok ⟨[n], List.ofFn (fun p => if p = i then g else 0)⟩ ∧
+    ∀ p, HasDerivAt (fun t => g * maxF hn (Function.update x p t)) (if p = i then g else 0) (x p) := by
+  have wx : (H.val xn).WF := by rw [hx]; exact wf_ofFn hn x
+  have hlt : ∀ k, k ≠ i → x k < x i := fun k hk => by linarith [hm k hk, θ_pos]
+  have hub : ∀ k, x k ≤ x i := by
+    intro k
+    by_cases hk : k = i
+    · rw [hk]
+    · exact (hlt k hk).le
+  have hM : maxF hn x = x i := maxF_eq_of hn x i hub
+  refine ⟨?_, ?_⟩
+  · have hsel := (extAlong_max_select bm H xn yn n g (x i) wx (by rw [hx]) (by rw [hy, hM]) (by
+      intro v hv
+      rw [hx] at hv
+      obtain ⟨k, hk⟩ := List.mem_ofFn.mp hv
+      rw [← hk]; exact hub k)).1
+    rw [hsel, hx]
+    congr 2
+    rw [List.map_ofFn]
+    congr 1
+    funext p
+    simp only [Function.comp_apply]
+    by_cases hp : p = i
+    · rw [if_pos hp, hp, if_pos (by linarith [θ_pos])]
+    · rw [if_neg hp, if_neg (by linarith [hm p hp])]
+  · intro p
+    by_cases hp : p = i
+    · subst hp
+      rw [if_pos rfl]
+      have hev : (fun t => g * maxF hn (Function.update x p t)) =ᶠ[nhds (x p)] fun t => g * t := by
+        filter_upwards [eventually_gt_nhds (show x p - θ < x p by linarith [θ_pos])] with t ht
+        rw [maxF_eq_of hn (Function.update x p t) p (by
+          intro k
+          by_cases hk : k = p
+          · rw [hk]
+          · rw [Function.update_of_ne hk, Function.update_self]; linarith [hm k hk])]
+        rw [Function.update_self]
+      have := ((hasDerivAt_id (x p)).const_mul g).congr_of_eventuallyEq hev
+      rwa [mul_one] at this
+    · rw [if_neg hp]
+      have hev : (fun t => g * maxF hn (Function.update x p t)) =ᶠ[nhds (x p)] fun _ => g * x i := by
+        filter_upwards [eventually_lt_nhds (hlt p hp)] with t ht
+        rw [maxF_eq_of hn (Function.update x p t) i (by
+          intro k
+          rw [Function.update_of_ne (Ne.symm hp)]
+          by_cases hk : k = p
+          · rw [hk, Function.update_self]; exact ht.le
+          · rw [Function.update_of_ne hk]; exact hub k)]
+        rw [Function.update_of_ne (Ne.symm hp)]
+      exact (hasDerivAt_const (x p) (g * x i)).congr_of_eventuallyEq hev
+
+/-! ### the same for `Min` (the ℝ instance folds from `posInf = 0`) -/
+
+theorem min_eq_of (t : Tensor ℝ) (m : ℝ) (h0 : m ≤ 0) (hlb : ∀ v ∈ t.data, m ≤ v) (hmem : m = 0 ∨ m ∈ t.data) :
+    t.min = m := by
+  obtain ⟨g0, g1, g2, _, _⟩ := C05x.min_real_partial t
+  apply le_antisymm
+  · rcases hmem with h | h
+    · rw [h]; exact g0
+    · exact g1 _ h
+  · rcases g2 with h | h
+    · rw [h]; exact h0
+    · exact hlb _ h
+
+theorem d_min_at_argmin {n : ℕ} (x : Fin n → ℝ) (i : Fin n) (hneg : x i < 0) (hstrict : ∀ k, k ≠ i → x i < x k) :
+    HasDerivAt (fun t => (⟨[n], List.ofFn (Function.update x i t)⟩ : Tensor ℝ).min) 1 (x i) := by
+  obtain ⟨c0, c1, c2, _, _⟩ := C05x.min_real_partial (⟨[n], List.ofFn (Function.update x i 0)⟩ : Tensor ℝ)
+  generalize hc : (⟨[n], List.ofFn (Function.update x i 0)⟩ : Tensor ℝ).min = c at c0 c1 c2
+  have hci : x i < c := by
+    rcases c2 with h | h
+    · rw [h]; exact hneg
+    · obtain ⟨k, hk⟩ := List.mem_ofFn.mp h
+      by_cases hki : k = i
+      · rw [hki, Function.update_self] at hk; rw [← hk]; exact hneg
+      · rw [Function.update_of_ne hki] at hk; rw [← hk]; exact hstrict k hki
+  have hev : (fun t => (⟨[n], List.ofFn (Function.update x i t)⟩ : Tensor ℝ).min) =ᶠ[nhds (x i)] fun t => t := by
+    filter_upwards [eventually_lt_nhds hci] with t ht
+    apply min_eq_of
+    · linarith
+    · intro v hv
+      obtain ⟨k, hk⟩ := List.mem_ofFn.mp hv
+      by_cases hki : k = i
+      · rw [hki, Function.update_self] at hk; rw [← hk]
+      · rw [Function.update_of_ne hki] at hk
+        have : v ∈ (⟨[n], List.ofFn (Function.update x i 0)⟩ : Tensor ℝ).data :=
+          List.mem_ofFn.mpr ⟨k, by rw [Function.update_of_ne hki]; exact hk⟩
+        linarith [c1 v this]
+    · right
+      exact List.mem_ofFn.mpr ⟨i, by rw [Function.update_self]⟩
+  exact (hasDerivAt_id (x i)).congr_of_eventuallyEq hev
+
+theorem d_min_off_argmin {n : ℕ} (x : Fin n → ℝ) (i j : Fin n) (hneg : x i ≤ 0) (hlb : ∀ k, x i ≤ x k) (hj : x i < x j) :
+    HasDerivAt (fun t => (⟨[n], List.ofFn (Function.update x j t)⟩ : Tensor ℝ).min) 0 (x j) := by
+  have hji : j ≠ i := by intro h; rw [h] at hj; exact lt_irrefl _ hj
+  have hev : (fun t => (⟨[n], List.ofFn (Function.update x j t)⟩ : Tensor ℝ).min) =ᶠ[nhds (x j)] fun _ => x i := by
+    filter_upwards [eventually_gt_nhds hj] with t ht
+    apply min_eq_of _ _ hneg
+    · intro v hv
+      obtain ⟨k, hk⟩ := List.mem_ofFn.mp hv
+      by_cases hkj : k = j
+      · rw [hkj, Function.update_self] at hk; rw [← hk]; exact ht.le
+      · rw [Function.update_of_ne hkj] at hk; rw [← hk]; exact hlb k
+    · right
+      exact List.mem_ofFn.mpr ⟨i, by rw [Function.update_of_ne (Ne.symm hji)]⟩
+  exact (hasDerivAt_const (x j) (x i)).congr_of_eventuallyEq hev
+
+/-- **MinAlong(0) of a vector with a unique minimiser, over ℝ: the rule is the gradient of the Model's `Min`, times `g`**
+    (coordinate `i` negative — the ℝ instance folds from `0` instead of `+∞` — and below every other by more than `1e-240`) -/
+theorem minAlong_vjp_deriv_real_partial (bm : BMode) (H : Heap ℝ) (xn yn n : Nat) (x : Fin n → ℝ) (g : ℝ) (i : Fin n)
+    (hx : H.val xn = ⟨[n], List.ofFn x⟩) (hy : vAlong .min (H.val xn) 0 = .ok (H.val yn))
+    (hneg : x i < 0) (hm : ∀ k, k ≠ i → x i + θ < x k) :
+    evalRule bm H ⟨[], [g]⟩ (.extAlongX xn yn 0) = .ok ⟨[n], List.ofFn (fun p => if p = i then g else 0)⟩ ∧
+    ∀ p, HasDerivAt (fun t => g * (⟨[n], List.ofFn (Function.update x p t)⟩ : Tensor ℝ).min)
+      (if p = i then g else 0) (x p) := by
+  have hn : 0 < n := Nat.lt_of_le_of_lt (Nat.zero_le _) i.isLt
+  have wx : (H.val xn).WF := by rw [hx]; exact wf_ofFn hn x
+  have hlt : ∀ k, k ≠ i → x i < x k := fun k hk => by linarith [hm k hk, θ_pos]
+  have hlb : ∀ k, x i ≤ x k := by
+    intro k
+    by_cases hk : k = i
+    · rw [hk]
+    · exact (hlt k hk).le
+  have hM : (H.val xn).min = x i := by
+    rw [hx]
+    apply min_eq_of _ _ hneg.le
+    · intro v hv
+      obtain ⟨k, hk⟩ := List.mem_ofFn.mp hv
+      rw [← hk]; exact hlb k
+    · right; exact List.mem_ofFn.mpr ⟨i, rfl⟩
+  refine ⟨?_, ?_⟩
+  · rw [(minAlong_vjp_real_partial bm H xn yn n g wx (by rw [hx]) hy).2.1, hM, hx]
+    congr 2
+    rw [List.map_ofFn]
+    congr 1
+    funext p
+    simp only [Function.comp_apply]
+    by_cases hp : p = i
+    · rw [if_pos hp, hp, if_pos (by linarith [θ_pos])]
+    · rw [if_neg hp, if_neg (by linarith [hm p hp])]
+  · intro p
+    by_cases hp : p = i
+    · subst hp
+      rw [if_pos rfl]
+      have := (d_min_at_argmin x p hneg hlt).const_mul g
+      rwa [mul_one] at this
+    · rw [if_neg hp]
+      have := (d_min_off_argmin x i p hneg.le hlb (hlt p hp)).const_mul g
+      rwa [mul_zero] at this
+
+/-- the minimum of a non-empty vector -/
+noncomputable def minF {n : ℕ} (hn : 0 < n) (x : Fin n → ℝ) : ℝ :=
+  Finset.univ.inf' ⟨⟨0, hn⟩, Finset.mem_univ _⟩ x
+
+theorem minF_eq_of {n : ℕ} (hn : 0 < n) (x : Fin n → ℝ) (i : Fin n) (hlb : ∀ k, x i ≤ x k) : minF hn x = x i := by
+  unfold minF
+  apply le_antisymm
+  · exact Finset.inf'_le x (Finset.mem_univ i)
+  · exact Finset.le_inf' _ _ (fun k _ => hlb k)
+
+/-- **MinAlong(0) of a vector with a unique minimiser: the rule is the gradient of the minimum, times `g`** — `y` holding
+    the true minimum `inf_k x_k`, no sign condition -/
+theorem minAlong_vjp_deriv (bm : BMode) (H : Heap ℝ) (xn yn n : Nat) (hn : 0 < n) (x : Fin n → ℝ) (g : ℝ) (i : Fin n)
+    (hx : H.val xn = ⟨[n], List.ofFn x⟩) (hy : H.val yn = ⟨[], [minF hn x]⟩) (hm : ∀ k, k ≠ i → x i + θ < x k) :
+    evalRule bm H ⟨[], [g]⟩ (.extAlongX xn yn 0) = .ok ⟨[n], List.ofFn (fun p => if p = i then g else 0)⟩ ∧
+    ∀ p, HasDerivAt (fun t => g * minF hn (Function.update x p t)) (if p = i then g else 0) (x p) := by
+  have wx : (H.val xn).WF := by rw [hx]; exact wf_ofFn hn x
+  have hlt : ∀ k, k ≠ i → x i < x k := fun k hk => by linarith [hm k hk, θ_pos]
+  have hlb : ∀ k, x i ≤ x k := by
+    intro k
+    by_cases hk : k = i
+    · rw [hk]
+    · exact (hlt k hk).le
+  have hM : minF hn x = x i := minF_eq_of hn x i hlb
+  refine ⟨?_, ?_⟩
+  · have hsel := (extAlong_min_select bm H xn yn n g (x i) wx (by rw [hx]) (by rw [hy, hM]) (by
+      intro v hv
+      rw [hx] at hv
+      obtain ⟨k, hk⟩ := List.mem_ofFn.mp hv
+      rw [← hk]; exact hlb k)).1
+    rw [hsel, hx]
+    congr 2
+    rw [List.map_ofFn]
+    congr 1
+    funext p
+    simp only [Function.comp_apply]
+    by_cases hp : p = i
+    · rw [if_pos hp, hp, if_pos (by linarith [θ_pos])]
+    · rw [if_neg hp, if_neg (by linarith [hm p hp])]
+  · intro p
+    by_cases hp : p = i
+    · subst hp
+      rw [if_pos rfl]
+      have hev : (fun t => g * minF hn (Function.update x p t)) =ᶠ[nhds (x p)] fun t => g * t := by
+        filter_upwards [eventually_lt_nhds (show x p < x p + θ by linarith [θ_pos])] with t ht
+        rw [minF_eq_of hn (Function.update x p t) p (by
+          intro k
+          by_cases hk : k = p
+          · rw [hk]
+          · rw [Function.update_of_ne hk, Function.update_self]; linarith [hm k hk])]
+        rw [Function.update_self]
+      have := ((hasDerivAt_id (x p)).const_mul g).congr_of_eventuallyEq hev
+      rwa [mul_one] at this
+    · rw [if_neg hp]
+      have hev : (fun t => g * minF hn (Function.update x p t)) =ᶠ[nhds (x p)] fun _ => g * x i := by
+        filter_upwards [eventually_gt_nhds (hlt p hp)] with t ht
+        rw [minF_eq_of hn (Function.update x p t) i (by
+          intro k
+          rw [Function.update_of_ne (Ne.symm hp)]
+          by_cases hk : k = p
+          · rw [hk, Function.update_self]; exact ht.le
+          · rw [Function.update_of_ne hk]; exact hlb k)]
+        rw [Function.update_of_ne (Ne.symm hp)]
+      exact (hasDerivAt_const (x p) (g * x i)).congr_of_eventuallyEq hev
 
 /-- non-vacuity (kernel-checked on `Int`, where the threshold is 0): node 0 = `[3, 7, 7, 1, 1]`, node 1 = its Max `7`,
     node 2 = its Min `1`; upstream gradient `5`: both tied maxima receive `5`, both tied minima receive `5` -/
@@ -934,9 +1296,6 @@ theorem d_stdF {n : ℕ} (hn : 0 < n) (x : Fin n → ℝ) (i : Fin n) (hv : varF
   · field_simp
 
 /-! ### the Model's `Mean` / `Var` / `Std` of the vector tensor `⟨[n], List.ofFn x⟩` are these functions -/
-
-theorem wf_ofFn {n : ℕ} (hn : 0 < n) (x : Fin n → ℝ) : (⟨[n], List.ofFn x⟩ : Tensor ℝ).WF :=
-  ⟨by simp [prod], by intro d hd; simp at hd; omega⟩
 
 theorem mean_ofFn {n : ℕ} (x : Fin n → ℝ) : (⟨[n], List.ofFn x⟩ : Tensor ℝ).mean = meanF x := by
   rw [C05x.mean_real]
